@@ -8,6 +8,7 @@ S = 'photutils/segmentation/catalog.py::SourceCatalog'
 
 
 def register(reg):
+    register_mirror(reg)
     register_fluxerr(reg)
     box = '(0, data_cutout.shape[0]), (0, data_cutout.shape[1])'
     for tag, mspec, mreq, mcl in (
@@ -163,3 +164,49 @@ def register_fluxerr(reg):
         mutants=[('np.sum(arr.astype(float)**2)', 'np.sum(arr**2, dtype=float)'),
                  ('np.sum(arr.astype(float)**2)', 'np.sum((arr * arr).astype(float))')],
     ))
+
+
+def register_mirror(reg):
+    """_mask_to_mirrored_value (apermask_method='correct': neighbours inside a source's aperture
+    are replaced by the pixel mirrored through the source centre): pixel by pixel,
+      out(p) = data(p)                         if p is not to be replaced,
+               0                               if its mirror m = 2c - p is off the image, is itself
+                                               to be replaced, or is masked,
+               data(m)                         otherwise,
+    with c = the pixel containing (xcenter, ycenter)."""
+    U = 'photutils/segmentation/utils.py::_mask_to_mirrored_value'
+    box = '(0, data.shape[0]), (0, data.shape[1])'
+    mj, mi = '2 * int(xycenter[1] + 0.5) - j', '2 * int(xycenter[0] + 0.5) - i'
+    off = f'({mi} < 0 or {mj} < 0 or {mi} >= data.shape[1] or {mj} >= data.shape[0])'
+    for tag, mspec, mreq, mcl in (('mask', ('arr', 2, 'bool', 'nonempty'), ['mask.shape == data.shape'],
+                                   f' or mask[{mj}, {mi}]'), ('no-mask', ('const', None), [], '')):
+        reg.add(Contract(
+            target=U, props=['C07'], tag=tag,
+            params={'data': ('arr', 2, 'real', 'nonempty'), 'replace_mask': ('arr', 2, 'bool', 'nonempty'),
+                    'xycenter': ('tuple', 'real', 'real'), 'mask': mspec},
+            requires=['replace_mask.shape == data.shape', 'xycenter[0] >= 0', 'xycenter[1] >= 0'] + mreq,
+            replay={'call': 'photutils.segmentation.utils:_mask_to_mirrored_value',
+                    'args': ['data', 'replace_mask', 'xycenter', 'mask']},
+            ensures=[
+                ('shape', 'result.shape == data.shape'),
+                ('other-pixels-keep-their-value',
+                 f'forall(lambda j, i: implies(not replace_mask[j, i], result[j, i] == data[j, i]), {box})'),
+                ('mirror-off-the-image-gives-zero',
+                 f'forall(lambda j, i: implies(replace_mask[j, i] and {off}, result[j, i] == 0), {box})'),
+                ('unusable-mirror-gives-zero',
+                 f'forall(lambda j, i: implies(replace_mask[j, i] and not {off} and '
+                 f'(replace_mask[{mj}, {mi}]{mcl}), result[j, i] == 0), {box})'),
+                ('usable-mirror-gives-its-value',
+                 f'forall(lambda j, i: implies(replace_mask[j, i] and not {off} and not '
+                 f'(replace_mask[{mj}, {mi}]{mcl}), result[j, i] == data[{mj}, {mi}]), {box})'),
+            ],
+            mutants=[('2 * int(xycenter[0] + 0.5) - xmasked', '2 * int(xycenter[1] + 0.5) - xmasked'),
+                     ('(xmirror >= data.shape[1])', '(xmirror > data.shape[1])'),
+                     ('outdata[ymasked, xmasked] = outdata[ymirror, xmirror]',
+                      'outdata[ymasked, xmasked] = outdata[xmirror, ymirror]'),
+                     ('outdata[ymasked[badmask], xmasked[badmask]] = 0.0',
+                      'outdata[ymasked[badmask], xmasked[badmask]] = 1.0'),
+                     ('outdata[ybad, xbad] = 0.0', 'outdata[ybad, xbad] = 1.0'),
+                     ('xbad = xmasked[mirror_mask]', 'xbad = xmasked[~mirror_mask]')]
+            + ([('mirror_mask |= mask[ymirror, xmirror]', 'mirror_mask |= mask[ymasked, xmasked]')] if mcl else []),
+        ))
